@@ -43,13 +43,19 @@ class _Ctx:
     stmts: list[Stmt]
     is_ctx_expr: bool
     in_while_cond: bool = False
+    in_conditional: str | None = None
+    """why the expression being visited is not evaluated exactly once, if so"""
 
     @staticmethod
     def default():
         return _Ctx(stmts=[], is_ctx_expr=False)
 
+    def conditional(self, why: str) -> '_Ctx':
+        """This context, for a sub-expression evaluated conditionally or repeatedly."""
+        return _Ctx(self.stmts, self.is_ctx_expr, self.in_while_cond, self.in_conditional or why)
 
-def _refuses(e: Call, *, in_while_cond: bool) -> str | None:
+
+def _refuses(e: Call, *, in_while_cond: bool, in_conditional: str | None = None) -> str | None:
     """Why the call *e* cannot be inlined, or `None` where it can.
 
     Decided from the call and the callee alone, so a listing and the rewrite
@@ -60,6 +66,11 @@ def _refuses(e: Call, *, in_while_cond: bool) -> str | None:
         return (
             f'inlining `{e.fn.name}` here would splice its body before the '
             f'loop, where a `while` condition is evaluated every iteration'
+        )
+    if in_conditional is not None:
+        return (
+            f'inlining `{e.fn.name}` here would splice its body before the '
+            f'statement and run it unconditionally, where {in_conditional}'
         )
     # inlining rewrites the trailing return into an assignment to a temp (see
     # `_replace_ret`): none leaves nothing to rewrite, and several would emit
@@ -124,7 +135,7 @@ class _FuncInline(SiteRewriter):
             return super()._visit_call(e, ctx)
 
         # a refusal is not a site, so it takes no index
-        reason = _refuses(e, in_while_cond=ctx.in_while_cond)
+        reason = _refuses(e, in_while_cond=ctx.in_while_cond, in_conditional=ctx.in_conditional)
         if reason is not None:
             self.refused.append((e, reason))
             if self._named_by_cursor(e):
@@ -205,6 +216,34 @@ class _FuncInline(SiteRewriter):
         # return the bound value
         return Var(t, e.loc)
 
+
+    def _visit_if_expr(self, e: IfExpr, ctx: _Ctx):
+        cond = self._visit_expr(e.cond, ctx)
+        arm = ctx.conditional('only one arm of a conditional expression is evaluated')
+        ift = self._visit_expr(e.ift, arm)
+        iff = self._visit_expr(e.iff, arm)
+        return IfExpr(cond, ift, iff, e.loc)
+
+    def _visit_naryop(self, e: NaryOp, ctx: _Ctx):
+        if isinstance(e, And | Or) and e.args:
+            # only the first operand is evaluated unconditionally
+            tail = ctx.conditional('`and` / `or` skip their later operands')
+            args = [self._visit_expr(e.args[0], ctx)]
+            args += [self._visit_expr(arg, tail) for arg in e.args[1:]]
+            return type(e)(args, e.loc)
+        return super()._visit_naryop(e, ctx)
+
+    def _visit_list_comp(self, e: ListComp, ctx: _Ctx):
+        # the element and every later iterable see the comprehension targets
+        # and run once per item; only the first iterable is evaluated up front
+        inner = ctx.conditional('a comprehension evaluates it once per item')
+        targets = [self._visit_binding(target, ctx) for target in e.targets]
+        iterables = [
+            self._visit_expr(iterable, ctx if i == 0 else inner)
+            for i, iterable in enumerate(e.iterables)
+        ]
+        elt = self._visit_expr(e.elt, inner)
+        return ListComp(targets, iterables, elt, e.loc)
 
     def _visit_while(self, stmt: WhileStmt, ctx: _Ctx):
         cond = self._visit_expr(stmt.cond, _Ctx(ctx.stmts, False, in_while_cond=True))
